@@ -112,7 +112,7 @@ func (p *gcpPicker) Pick(info balancer.PickInfo) (balancer.PickResult, error) {
 			bindKeys, err := getAffinityKeysFromMessage(locator, gcpCtx.replyMsg)
 			if err == nil {
 				for _, bk := range bindKeys {
-					p.gb.bindSubConn(bk, scRef.subConn)
+					p.gb.bindSubConn(bk, p.gb.getSubConn(scRef))
 				}
 			}
 		case grpc_gcp.AffinityConfig_UNBIND:
@@ -120,10 +120,11 @@ func (p *gcpPicker) Pick(info balancer.PickInfo) (balancer.PickResult, error) {
 		}
 	}
 
+	sc := p.gb.getSubConn(scRef)
 	if p.log.V(FINEST) {
-		p.log.Infof("picked SubConn: %p", scRef.subConn)
+		p.log.Infof("picked SubConn: %p", sc)
 	}
-	return balancer.PickResult{SubConn: scRef.subConn, Done: callback}, nil
+	return balancer.PickResult{SubConn: sc, Done: callback}, nil
 }
 
 // unresponsiveWindow returns channel pool's unresponsiveDetectionMs multiplied
@@ -138,6 +139,11 @@ func (p *gcpPicker) detectUnresponsive(ctx context.Context, scRef *subConnRef, c
 	if !p.gb.unresponsiveDetection {
 		return
 	}
+	// The detector state of the subConnRef is shared with other completion
+	// callbacks and with the balancer (which swaps the SubConn when a refresh
+	// completes): evaluate the rule and start the refresh under one lock.
+	p.gb.mu.Lock()
+	defer p.gb.mu.Unlock()
 
 	// Treat as a response from the server if deadline exceeded was not caused by client side context reached deadline.
 	if dl, ok := ctx.Deadline(); rpcErr == nil || status.Code(rpcErr) != codes.DeadlineExceeded ||
@@ -154,7 +160,7 @@ func (p *gcpPicker) detectUnresponsive(ctx context.Context, scRef *subConnRef, c
 	// exceeded calls and enough time passed since last response to trigger refresh.
 	if scRef.deCallsInc() >= p.gb.cfg.GetChannelPool().GetUnresponsiveCalls() &&
 		scRef.lastResp.Before(time.Now().Add(-p.unresponsiveWindow(scRef))) {
-		p.gb.refresh(scRef)
+		p.gb.refreshLocked(scRef)
 	}
 }
 
@@ -162,7 +168,7 @@ func (p *gcpPicker) getAndIncrementSubConnRef(ctx context.Context, boundKey stri
 	if cmd == grpc_gcp.AffinityConfig_BIND && p.gb.cfg.GetChannelPool().GetBindPickStrategy() == grpc_gcp.ChannelPoolConfig_ROUND_ROBIN {
 		scRef := p.gb.getSubConnRoundRobin(ctx)
 		if p.log.V(FINEST) {
-			p.log.Infof("picking SubConn for round-robin bind: %p", scRef.subConn)
+			p.log.Infof("picking SubConn for round-robin bind: %p", p.gb.getSubConn(scRef))
 		}
 		scRef.streamsIncr()
 		return scRef, nil
